@@ -234,6 +234,19 @@ impl NaiveDateTime {
     pub fn weekday(&self) -> (r: Weekday) ensures weekday_num(r) == cal_wd(self@) { unimplemented!() }
 }
 
+/// `date.and_utc().timestamp()`: seconds since the epoch (midnight assumption: 86400 * day number) [K]
+#[verifier::external_body]
+pub struct DateTimeUtc { _p: i64 }
+impl View for DateTimeUtc { type V = int; uninterp spec fn view(&self) -> int; }
+impl NaiveDateTime {
+    #[verifier::external_body]
+    pub fn and_utc(&self) -> (r: DateTimeUtc) ensures r@ == self@ { unimplemented!() }
+}
+impl DateTimeUtc {
+    #[verifier::external_body]
+    pub fn timestamp(&self) -> (r: i64) ensures r as int == 86400 * self@ { unimplemented!() }
+}
+
 impl vstd::std_specs::cmp::PartialEqSpecImpl for NaiveDateTime {
     open spec fn obeys_eq_spec() -> bool { true }
     open spec fn eq_spec(&self, other: &NaiveDateTime) -> bool { self@ == other@ }
